@@ -74,6 +74,14 @@ for nm, rel in (("lt", "<"), ("le", "<="), ("gt", ">"), ("ge", ">=")):
          requires=["(okterm(a, 1) and okterm(b, 1)) or (okterm(a, 2) and okterm(b, 2))"],
          ensures=["result == (std_cmp(a, b) %s 0)" % rel])
 
+# ==/2 and \==/2: identity is equality in the standard order (so that compare/3 answers '=' exactly when == holds)
+S.fn("problog.engine_builtin:_builtin_same", types={"arg1": "Term", "arg2": "Term", "kwdargs": "None"}, returns="Bool",
+     requires=["(okterm(arg1, 1) and okterm(arg2, 1)) or (okterm(arg1, 2) and okterm(arg2, 2))"],
+     ensures=["result == (std_cmp(arg1, arg2) == 0)"])
+S.fn("problog.engine_builtin:_builtin_notsame", types={"arg1": "Term", "arg2": "Term", "kwdargs": "None"}, returns="Bool",
+     requires=["(okterm(arg1, 1) and okterm(arg2, 1)) or (okterm(arg1, 2) and okterm(arg2, 2))"],
+     ensures=["result == (std_cmp(arg1, arg2) != 0)"])
+
 # ---------------------------------------------------------------- bounded stand-ins (run-time contracts)
 # sort/2 and compare/3 go through check_mode / list_elements / build_list / unify_value and Python's
 # sorted() and set(): outside the verifier's subset.  Their contracts are evaluated at run time on the
